@@ -201,8 +201,8 @@ Ltac ss_go :=
       apply (ss_trans k a x); [ss_go | unfold request_asset; ss_go]
   | |- sys_step ?k ?a (insert_asset ?x _ _ _) =>
       apply (ss_trans k a x); [ss_go | unfold insert_asset; ss_go]
-  | |- sys_step ?k ?a (signal_component_changed ?x _ _ _) =>
-      apply (ss_trans k a x); [ss_go | unfold signal_component_changed; ss_go]
+  | |- sys_step ?k ?a (signal_component_changed ?x _ _ _ _) =>
+      apply (ss_trans k a x); [ss_go | unfold signal_component_changed; cbv zeta; ss_go]
   | |- sys_step ?k ?a (set _ _ ?x) => apply (ss_trans k a x); [ss_go | generalize x; intros ?; apply ss_core; core_tac]
   | |- sys_step ?k ?a (foldl _ ?x _) =>
       apply (ss_trans k a x); [ss_go | apply (foldl_rel (sys_step k)); [apply ss_refl | apply ss_trans | intros ? ? _; ss_go] ]
@@ -547,8 +547,8 @@ Section cmd_rel.
                         | Some c => negb (value_eqb (c_val c) v0)
                         | None => true
                         end
-                     then (upd_ent (pr <| t_ctok := (u, wire_type t v) :: remove_pair (u, wire_type t v) (t_ctok pr) |>) e'
-                             (put_comp (p_tick (pr <| t_ctok := (u, wire_type t v) :: remove_pair (u, wire_type t v) (t_ctok pr) |>)) t0 v0), true)
+                     then (upd_ent (pr <| t_ctok := (u, wire_type t v, p_tick pr) :: tok_remove (u, wire_type t v) (t_ctok pr) |>) e'
+                             (put_comp (p_tick (pr <| t_ctok := (u, wire_type t v, p_tick pr) :: tok_remove (u, wire_type t v) (t_ctok pr) |>)) t0 v0), true)
                      else (pr, false)
                  | None => (pr, false)
                  end
